@@ -10,8 +10,10 @@ import traceback
 
 from gridlint.core import DEFAULT_ROOT, AnalysisError, VERIF_DIR
 
-PROPS = ["C02", "C03", "C04", "C05", "C06", "C07", "C10", "C11", "C12", "C13", "C14", "C17",
-         "C18", "C19", "C20"]
+import re
+
+PROPS = sorted(f[:-3].upper() for f in os.listdir(os.path.join(VERIF_DIR, "gridlint", "props"))
+               if re.fullmatch(r"c\d\d\.py", f))
 
 
 def run_property(pid, tier, root, evidence_dir=None, quiet=False):
